@@ -5,7 +5,7 @@ import random
 
 INTS = [0, 1, 2, 3, 7, 10, 42, 255, 256, 1000, 65535, 65536, 99999, 1234567, 140737488355327 // 3, 2 ** 40 + 5]
 FLOATS = ["0.5", "1.0", "2.5", "3.14159", "1.5e300", "2.5e-10", "0.1", "0.2", "100.0", "6.02e23", "1.0e-300", "123456.789"]
-STRS = ["abc", "héllo", "wörld 😀", "tab\\there", "q\\\"uote", "back\\\\slash", "line\\nbreak", "", " ", "a b c", "{{braces}}", "日本語", "x"]
+STRS = ["abc", "héllo", "wörld 😀", "tab\\there", "q\\\"uote", "back\\\\slash", "line\\nbreak", "", " ", "a b c", "{{braces}}", "日本語", "x", "nel\u0085x", "\x01ctl\x7f", "nbsp\u00a0\u2028"]
 
 
 def S(r):
